@@ -193,11 +193,111 @@ func unicodeNoise(r *rand.Rand) string {
 }
 
 // Classes of generated strings (for coverage accounting).
-var StrClasses = []string{"sys", "ast", "ast-spelled", "ast-mutated", "suite", "suite-mutated", "soup", "unicode", "grammar", "splice", "nest"}
+var StrClasses = []string{"sys", "ast", "ast-spelled", "ast-mutated", "suite", "suite-mutated", "soup", "unicode", "grammar", "splice", "nest", "restricted"}
+
+// Restricted renders a filter whose comparison (or regex) operand is made a VALUE GROUP by exactly one inserted step of a
+// random multi-valued kind (wildcard, multi-name, union, every slice form incl. negative and omitted steps, filter,
+// recursive descent), or whose two operands are both `@`-rooted: sentences of the grammar that the semantic
+// restrictions reject. The AST generators never produce them (they only build accepted paths).
+func (g *Gen) Restricted() string {
+	r := g.R
+	vg := func() spec.Step {
+		sl := func(s, e, t *int64) spec.Step {
+			return spec.Step{Kind: spec.KUnion, Subs: []spec.Sub{{Kind: spec.SSlice, Start: s, End: e, Step: t}}}
+		}
+		switch r.Intn(12) {
+		case 0:
+			return spec.Step{Kind: spec.KWild, Bracket: r.Intn(2) == 0}
+		case 1:
+			return spec.Step{Kind: spec.KMulti, Items: []spec.MItem{{Key: g.key()}, {Key: g.key()}}}
+		case 2:
+			return spec.Step{Kind: spec.KMulti, Items: []spec.MItem{{Wild: true}, {Key: g.key()}}}
+		case 3:
+			return spec.Step{Kind: spec.KUnion, Subs: []spec.Sub{{Kind: spec.SIndex, N: 0}, {Kind: spec.SIndex, N: g.smallInt()}}}
+		case 4:
+			return sl(ip(g.smallInt()), ip(g.smallInt()), ip(1+int64(r.Intn(3))))
+		case 5:
+			return sl(ip(g.smallInt()), ip(g.smallInt()), ip(-1-int64(r.Intn(3)))) // negative step
+		case 6:
+			return sl(nil, nil, ip(-1))
+		case 7:
+			return sl(ip(g.smallInt()), nil, nil)
+		case 8:
+			return sl(nil, ip(g.smallInt()), ip(0))
+		case 9:
+			return spec.Step{Kind: spec.KFilter, Q: &spec.Query{Op: spec.QExist, P: &spec.Path{Root: '@', Steps: []spec.Step{{Kind: spec.KName, Key: g.key()}}}}}
+		case 10:
+			return spec.Step{Kind: spec.KUnion, Subs: []spec.Sub{{Kind: spec.SWild}}}
+		}
+		return spec.Step{Kind: spec.KRec}
+	}
+	operand := func(root byte) *spec.Path {
+		p := &spec.Path{Root: root, Steps: g.steps(r.Intn(3), true, 0)}
+		return p
+	}
+	insertVG := func(p *spec.Path) {
+		st := vg()
+		at := r.Intn(len(p.Steps) + 1)
+		steps := append([]spec.Step{}, p.Steps[:at]...)
+		steps = append(steps, st)
+		if st.Kind == spec.KRec {
+			steps = append(steps, spec.Step{Kind: spec.KName, Key: g.key()})
+		}
+		p.Steps = append(steps, p.Steps[at:]...)
+		if r.Intn(5) == 0 && len(g.Funcs) > 0 {
+			p.Funcs = []string{g.Funcs[r.Intn(len(g.Funcs))]} // a filter function keeps the operand a value group
+		}
+	}
+	var q *spec.Query
+	root := []byte{'@', '@', '$'}[r.Intn(3)]
+	switch r.Intn(8) {
+	case 0:
+		p := operand(root)
+		insertVG(p)
+		q = &spec.Query{Op: spec.QRegex, P: p, Re: "a"}
+	case 1: // two current-node operands, no value group
+		q = &spec.Query{Op: spec.QCmp, Cmp: CmpOps[r.Intn(len(CmpOps))], LO: spec.Operand{P: operand('@')}, RO: spec.Operand{P: operand('@')}}
+	default:
+		p := operand(root)
+		insertVG(p)
+		op := CmpOps[r.Intn(len(CmpOps))]
+		var other spec.Operand
+		switch {
+		case r.Intn(3) == 0 && root == '@':
+			other = spec.Operand{P: operand('$')}
+		case op == "==" || op == "!=":
+			other = g.literal()
+		default:
+			other = g.numLiteral()
+		}
+		lo, ro := spec.Operand{P: p}, other
+		if r.Intn(2) == 0 {
+			lo, ro = ro, lo
+		}
+		q = &spec.Query{Op: spec.QCmp, Cmp: op, LO: lo, RO: ro}
+	}
+	if r.Intn(4) == 0 {
+		// inside a logical expression next to an accepted comparison
+		ok := g.Comparison("==", 0)
+		if r.Intn(2) == 0 {
+			q = &spec.Query{Op: spec.QAnd, L: ok, R: q}
+		} else {
+			q = &spec.Query{Op: spec.QOr, L: q, R: ok}
+		}
+	}
+	host := &spec.Path{Root: '$', Steps: append(g.steps(r.Intn(2), false, 0), spec.Step{Kind: spec.KFilter, Q: q})}
+	if r.Intn(2) == 0 {
+		s, _ := host.Render(RandomSpelling(r))
+		return s
+	}
+	return host.Text()
+}
 
 // Next returns one string and the class it came from. g supplies random ASTs.
 func (sg *StrGen) Next(r *rand.Rand, g *Gen) (string, string) {
-	switch c := r.Intn(26); {
+	switch c := r.Intn(28); {
+	case c >= 26:
+		return Clip(g.Restricted()), "restricted"
 	case c >= 24:
 		return Clip(Nest(r)), "nest"
 	case c >= 20:
